@@ -462,8 +462,9 @@ std::optional<int64_t> CgroupContext::getPgScanCumulative(
   if (const auto& memstat = memory_stat(err)) {
     if (auto pos = memstat->find(kPgScan); pos != memstat->end()) {
       return std::make_optional(pos->second);
-    } else {
-      throw std::runtime_error("Bad memory.stat format: missing pgscan entry");
+    } else if (err) {
+      // memory.stat is empty or has no pgscan key (eg. the cgroup is going away)
+      *err = Error::INVALID_CGROUP;
     }
   }
   return std::nullopt;
